@@ -123,6 +123,43 @@ func (cs *c13case) runReader(rng *rand.Rand) string {
 	return CompareRecs(cs.Shape.Schema(), cs.Recs, res.Recs)
 }
 
+// faultyOps leaves the process in whatever state FAILED operations leave it in:
+// a reader over a damaged copy of a file (a corrupted page, a truncated file)
+// and a writer whose sink fails. Errors and panics are expected and ignored;
+// what matters is that later instances are not affected.
+func faultyOps(cs *c13case, rng *rand.Rand) {
+	if len(cs.Ref) > 64 {
+		bad := append([]byte{}, cs.Ref...)
+		switch rng.Intn(3) {
+		case 0: // damage the first page bodies
+			for i := 0; i < 6; i++ {
+				bad[8+rng.Intn(len(bad)/2)] ^= 0xFF
+			}
+		case 1: // zero a stretch in the middle
+			o := 16 + rng.Intn(len(bad)/2)
+			for i := o; i < o+24 && i < len(bad)-16; i++ {
+				bad[i] = 0
+			}
+		default: // a source that fails in the middle of the data area
+		}
+		func() {
+			defer func() { recover() }()
+			src := NewSource(bad)
+			if rng.Intn(2) == 0 {
+				src.FailAt = 40 + rng.Intn(400)
+			}
+			ReadAll(cs.Shape, src, len(cs.Recs)+5)
+		}()
+	}
+	func() {
+		defer func() { recover() }()
+		sink := NewSink()
+		sink.FailAt = rng.Intn(12)
+		sink.FailMode = []string{"transient", "sticky", "partial"}[rng.Intn(3)]
+		RunHistory(cs.Shape, sink, cs.Page, cs.Codec, HistoryOf(cs.Recs, cs.Part), false)
+	}()
+}
+
 func shadowReport() map[string]interface{} {
 	v := expvar.Get("verif_shadow_pool")
 	if v == nil {
@@ -146,26 +183,73 @@ func runC13(c *Ctx) {
 	// from process to process, so that every process gives each history a different prior
 	// process history; the digests are compared ACROSS processes by the orchestrator
 	order := Rng(c.Seed, fmt.Sprintf("c13order/%s/%d", mode, c.Shard)).Perm(len(cases))
+	frng := Rng(c.Seed, fmt.Sprintf("c13faults/%s/%d", mode, c.Shard))
 	for _, oi := range order {
 		cs := cases[oi]
 		b, msg := cs.runWriter(rand.New(rand.NewSource(1)), nil)
 		if msg != "" {
-			c.Out.Inconclusive(fmt.Sprintf("history %s fails sequentially (a C01 matter): %s", cs.ID, msg))
-			return
+			// whether this is the history's own fault (a C01 matter) or the effect of what ran before
+			// it in THIS process is decided across processes: the orders and the failed operations differ
+			c.Out.SetAdd("history_digests", fmt.Sprintf("%s=WRITE-FAILED", cs.ID))
+			c.Out.SetAdd("history_failures", fmt.Sprintf("%s: %s", cs.ID, clip(msg)))
+			continue
 		}
 		cs.Ref = b
 		dg := sha256.Sum256(b)
 		c.Out.SetAdd("history_digests", fmt.Sprintf("%s=%x", cs.ID, dg[:10]))
 		if m := cs.runReader(nil); m != "" {
-			c.Out.Inconclusive(fmt.Sprintf("history %s does not read back sequentially (a C01 matter): %s", cs.ID, m))
-			return
+			c.Out.SetAdd("history_digests", fmt.Sprintf("%s/read=READ-FAILED", cs.ID))
+			c.Out.SetAdd("history_failures", fmt.Sprintf("%s (read): %s", cs.ID, clip(m)))
+			cs.Ref = nil
+			continue
 		}
+		c.Out.SetAdd("history_digests", fmt.Sprintf("%s/read=ok", cs.ID))
+		if frng.Intn(3) == 0 {
+			// failed operations of another instance between two reference runs (differs per process)
+			faultyOps(cs, frng)
+		}
+	}
+	// histories without a reference in this process take no further part here
+	var usable []*c13case
+	for _, cs := range cases {
+		if cs.Ref != nil {
+			usable = append(usable, cs)
+		}
+	}
+	cases = usable
+	if len(cases) < 2 {
+		c.Out.Inconclusive("fewer than two histories have a sequential reference in this process")
+		return
 	}
 	viol := func(kind, caseID, detail string) {
 		c.Out.Violate(Violation{Prop: "C13", Key: "mode=" + mode + ";kind=" + kind, Case: caseID, Detail: detail, Extra: map[string]interface{}{"mode": mode}})
 	}
 	switch mode {
 	case "indep":
+		// family 1b: FAILED operations of one instance, then another instance using the same
+		// code paths (same codec): whatever a failure leaves behind in shared state must not
+		// reach the next instance
+		byCodec := map[int][]*c13case{}
+		for _, cs := range cases {
+			byCodec[cs.Codec] = append(byCodec[cs.Codec], cs)
+		}
+		for codec, list := range byCodec {
+			if len(list) < 2 {
+				continue
+			}
+			for round := 0; round < 8; round++ {
+				x := list[frng.Intn(len(list))]
+				y := list[frng.Intn(len(list))]
+				faultyOps(x, frng)
+				c.Out.Count("fault_then_verify_rounds", 1)
+				if m := y.runReader(nil); m != "" {
+					viol("rows_depend_on_failed_instance", "indep/"+y.ID, fmt.Sprintf("after another instance (%s, %s) had FAILED while reading a damaged file / writing to a failing sink, a new reader of the intact file of %s: %s", x.ID, CodecNames[codec], y.ID, m))
+				}
+				if b, msg := y.runWriter(frng, nil); msg != "" || !bytes.Equal(b, y.Ref) {
+					viol("bytes_depend_on_failed_instance", "indep/"+y.ID, fmt.Sprintf("after another instance (%s, %s) had failed, history %s: %s (bytes equal: %v)", x.ID, CodecNames[codec], y.ID, msg, bytes.Equal(b, y.Ref)))
+				}
+			}
+		}
 		// family 1: the same history after different prior process histories
 		for i, cs := range cases {
 			id := "indep/" + cs.ID
@@ -181,6 +265,10 @@ func runC13(c *Ctx) {
 					o.runWriter(prng, nil)
 					if prng.Intn(2) == 0 {
 						o.runReader(nil)
+					}
+					if prng.Intn(2) == 0 {
+						faultyOps(o, prng)
+						c.Out.Count("polluters_with_failed_operations", 1)
 					}
 				}
 				b, msg := cs.runWriter(prng, nil)
